@@ -166,3 +166,77 @@ def intersectDecide (ct fr : Nat) (e1 e2 : Active) (hot1 hot2 front1 same : Bool
     else (a1, a2, .none, false, false)
 
 end Model
+
+namespace Model
+open Gen
+
+/-! ### An abstract sweep: the three structural operations on the active-edge list
+
+Closed edges only; geometry (where edges are, which ones meet) is abstracted into the choice of
+operations: *any* sequence of insertions of a local minimum (two bounds with opposite directions),
+intersections of two adjacent edges and removals of a local maximum (two adjacent edges of one
+path type with opposite directions) is allowed. -/
+
+structure HEdge where
+  e : Active
+  hot : Bool
+  deriving Repr, Inhabited
+
+inductive SweepOp where
+  /-- `insertLocalMinimaIntoAEL`: bounds of path type `pt`, the left one with direction `dx`, at position `k` -/
+  | insert (k pt : Nat) (dx : Int)
+  /-- `intersectEdges` + `swapPositionsInAEL` on positions `k`, `k+1` -/
+  | swap (k : Nat) (front1 same : Bool)
+  /-- `doMaxima`: positions `k`, `k+1` leave the list -/
+  | remove (k : Nat)
+  deriving Repr
+
+def contributing (ct fr : Nat) (a : Active) : Bool :=
+  clipperBase_isContributingClosed { fillRule := fr, clipType := ct, hasOpenPaths := false, usingPolyTree := false, preserveCollinear := true, reverseSolution := false } a
+
+def sweepStep (ct fr : Nat) (s : List HEdge) : SweepOp → List HEdge
+  | .insert k pt dx =>
+    if k ≤ s.length ∧ (dx = 1 ∨ dx = -1) ∧ (pt = 0 ∨ pt = 1) then
+      let fresh : Active := { windDx := dx, windCount := 0, windCount2 := 0, localMin := { PolyType := pt, IsOpen := false } }
+      let e1 := setWindCountClosed fr ((s.take k).map (·.e)) fresh
+      -- `rightBound.windCount = leftBound.windCount; rightBound.windCount2 = leftBound.windCount2`
+      let e2 := { e1 with windDx := -dx }
+      let h := contributing ct fr e1
+      s.take k ++ [⟨e1, h⟩, ⟨e2, h⟩] ++ s.drop k
+    else s
+  | .swap k front1 same =>
+    if h : k + 1 < s.length then
+      let a := s[k]
+      let b := s[k+1]
+      let r := intersectDecide ct fr a.e b.e a.hot b.hot front1 same
+      s.take k ++ [⟨r.2.1, r.2.2.2.2⟩, ⟨r.1, r.2.2.2.1⟩] ++ s.drop (k + 2)
+    else s
+  | .remove k =>
+    if h : k + 1 < s.length then
+      let a := s[k]
+      let b := s[k+1]
+      if getPolyType a.e = getPolyType b.e ∧ a.e.windDx = -b.e.windDx then s.take k ++ s.drop (k + 2) else s
+    else s
+
+/-- the sweep invariant: every edge well-formed and closed, every edge's counts are the winding
+    numbers of the regions beside it, and an edge is hot exactly when it is contributing -/
+def SweepInv (ct fr : Nat) (s : List HEdge) : Prop :=
+  (∀ h ∈ s, WF h.e ∧ isOpen h.e = false ∧ h.hot = contributing ct fr h.e) ∧ AelOK fr [] (s.map (·.e))
+
+end Model
+
+namespace Model
+open Gen
+
+/-- the open-path branch of `intersectEdges` (ae1 an open subject edge, ae2 a closed edge): does
+    the open edge's contribution toggle at this crossing? -/
+def openCrossToggles (ct fr : Nat) (e2 : Active) (hot2 : Bool) : Bool :=
+  let fillOK : Bool :=
+    if fr = C_Positive then e2.windCount == 1
+    else if fr = C_Negative then e2.windCount == -1
+    else e2.windCount.natAbs == 1
+  if ct = C_Union then (if !hot2 then false else fillOK)
+  else if getPolyType e2 = C_Subject then false
+  else fillOK
+
+end Model
